@@ -958,7 +958,7 @@ fn main() {
         let mut records = lock(&rec).clone();
         for e in verif::take_trace() {
             records.push(match e {
-                verif::Event::State { seq, pid, tid, nid, kind, old, new, via } => json!({"t":"state","seq":seq,"pid":pid,"tid":tid,"nid":nid,"kind":kind,"old":old,"new":new,"via":via}),
+                verif::Event::State { seq, pid, tid, nid, kind, old, new, via, thread } => json!({"t":"state","seq":seq,"pid":pid,"tid":tid,"nid":nid,"kind":kind,"old":old,"new":new,"via":via,"thread":thread}),
                 verif::Event::Create { seq, pid, tid, nid, kind, prev, level } => json!({"t":"create","seq":seq,"pid":pid,"tid":tid,"nid":nid,"kind":kind,"prev":prev,"level":level}),
                 verif::Event::Exec { seq, pid, tid, phase, thread } => json!({"t":"exec","seq":seq,"pid":pid,"tid":tid,"phase":phase,"thread":thread}),
                 verif::Event::Emit { seq, what, id, pid, tid, state } => json!({"t":"emit","seq":seq,"what":what,"id":id,"pid":pid,"tid":tid,"state":state}),
